@@ -7,7 +7,7 @@ to symbolic integer operations.  Calls are served, in this order, by: summaries 
 obligation, built-in models of std items, the callee's own MIR (inlined).
 Anything not modelled raises Unsupported -> the obligation is reported inconclusive.
 """
-import re, copy
+import re, copy, os, sys
 import z3
 from mir import Fn
 
@@ -852,13 +852,29 @@ class Ex:
             return None
 
         def arm(b):
-            stmts, term = fn.blocks[b]
-            if term[0] != "goto" or len(stmts) > 4:
-                return None
-            for st in stmts:
-                if st[0] in ("rawstmt", "setdiscr") or st[0][0] != "local" or st[1][0] not in ("use", "cast", "bin", "un"):
+            """straight-line arm: up to 4 blocks of local scalar assignments, each ending in `goto` or in a call of a function
+            that cannot touch the caller's memory (pure by signature); returns (ops, join block)"""
+            ops = []
+            wide = getattr(self, "merge_pure", False)        # the wider arm shapes only where the obligation opted in
+            for _ in range(4 if wide else 1):
+                stmts, term = fn.blocks[b]
+                if len(stmts) > (6 if wide else 4):
                     return None
-            return stmts, int(term[1][2:])
+                for st in stmts:
+                    if st[0] in ("rawstmt", "setdiscr") or st[0][0] != "local" or st[1][0] not in (("use", "cast", "bin", "un", "ref", "copyderef") if wide else ("use", "cast", "bin", "un")):
+                        return None
+                    ops.append(("st", st[0], st[1]))
+                if term[0] == "goto":
+                    return ops, int(term[1][2:])
+                if term[0] == "call" and getattr(self, "merge_pure", False) and term[1] is not None and term[1][0] == "local" and term[4]:
+                    cal = self.crate.find(term[2])
+                    if cal is None or cal.kind != "fn" or self.summaries.get(term[2]) is not None or not self._pure_sig(cal):
+                        return None
+                    ops.append(("call", term[1], term[2], term[3]))
+                    b = int(term[4][2:])
+                    continue
+                return None
+            return None
         at, af = arm(t_bb), arm(f_bb)
         if at is not None and af is not None and at[1] == af[1]:
             join = at[1]
@@ -868,39 +884,59 @@ class Ex:
             join, at = t_bb, ([], t_bb)
         else:
             return None
+        cond_t = self.dom.boolterm(v)
 
-        def run_arm(stmts):
+        def run_arm(ops, guard):
             saved, out = {}, {}
+            self.ctx.pc.append(guard)          # obligations raised while evaluating the arm hold only under its guard
+            npc = len(self.ctx.pc)
+            pos0 = self.ctx.pos
             try:
-                for place, rv in stmts:
+                for op in ops:
+                    place = op[1]
                     lid = place[1]
                     if lid not in saved:
                         saved[lid] = frame[lid].val if lid in frame else None
-                    val = self.rvalue(frame, rv)
-                    if not isinstance(val, Sc):
-                        return None
-                    self.write_at(*self.resolve(frame, place), val)
+                        if lid not in frame:
+                            frame[lid] = Cell(None, "%s._%d" % (fn.key, lid))
+                    if op[0] == "st":
+                        val = self.rvalue(frame, op[2])
+                    else:
+                        val = self.call(op[2], [self.operand(frame, a) for a in op[3]])
+                    if self.ctx.pos != pos0:
+                        return None                # the arm itself branched symbolically: no merging
+                    frame[lid].val = val
                 for lid in saved:
-                    out[lid] = frame[lid].val
-            except Unsupported:
+                    if not isinstance(frame[lid].val, (Sc, Ref)):
+                        return None
+                    if isinstance(frame[lid].val, Sc):
+                        out[lid] = frame[lid].val
+            except (Unsupported, Infeasible) as e_:
+                if os.environ.get("VERIF_DEBUG"):
+                    print("diamond arm not merged:", repr(e_)[:200], file=sys.stderr)
                 out = None
             finally:
+                del self.ctx.pc[npc - 1:]
                 for lid, old in saved.items():
                     if lid in frame:
                         frame[lid].val = old
             return out
-        ot = run_arm(at[0])
-        of = run_arm(af[0])
+        ot = run_arm(at[0], cond_t)
+        of = run_arm(af[0], z3.Not(cond_t))
         if ot is None or of is None:
             return None
         c = self.dom.boolterm(v)
+        dead = set()
         for lid in set(ot) | set(of):
             cur = frame[lid].val if lid in frame else None
             a = ot.get(lid, cur)
             b = of.get(lid, cur)
+            if (a is None or b is None) and cur is None and getattr(self, "merge_pure", False):
+                dead.add(lid)              # a temporary written in one arm only and unset before the branch: dead after the join
+                continue
             if not (isinstance(a, Sc) and isinstance(b, Sc)):
                 return None
-        for lid in set(ot) | set(of):
+        for lid in (set(ot) | set(of)) - dead:
             cur = frame[lid].val if lid in frame else None
             a = ot.get(lid, cur)
             b = of.get(lid, cur)
